@@ -9,7 +9,9 @@ Open Scope N_scope.
 Record sline := mkSLine {
   l_port : port;          (* open flag, bit rate, log of bit-rate assignments *)
   l_rxbaud : Z;           (* the receiver's bit rate *)
-  l_script : script       (* what the receiver does *)
+  l_script : script;      (* what the receiver does *)
+  l_out : list bytes;     (* ghost: frames written that still sit in the port's output buffer, oldest first *)
+  l_got : list bytes      (* ghost: frames that have left the port, in order *)
 }.
 
 Definition heard (l : sline) : bool := (p_baud (l_port l) =? l_rxbaud l)%Z.
@@ -18,7 +20,8 @@ Definition heard (l : sline) : bool := (p_baud (l_port l) =? l_rxbaud l)%Z.
    intelligible arrives. *)
 Definition l_receive (l : sline) : option bytes * N * sline :=
   let '(d, dt, s') := s_receive (l_script l) in
-  ((if heard l then d else None), dt, mkSLine (l_port l) (l_rxbaud l) s').
+  (* time passes: whatever sits in the output buffer leaves the port *)
+  ((if heard l then d else None), dt, mkSLine (l_port l) (l_rxbaud l) s' [] (l_got l ++ l_out l)).
 
 (* _transmit(): write(); the scripted attempt is consumed, the receiver answers only what it understood.
    The success flag is the comparison of the number of bytes written with len(data) (Backends.tty_transmit);
@@ -26,21 +29,23 @@ Definition l_receive (l : sline) : option bytes * N * sline :=
 Definition l_transmit (l : sline) (data : bytes) : bool * sline :=
   let s := l_script l in
   match future s with
-  | [] => (snd (tty_transmit (Z.of_nat (length data)) data), l)
+  | [] => (snd (tty_transmit (Z.of_nat (length data)) data),
+           mkSLine (l_port l) (l_rxbaud l) s (l_out l ++ [data]) (l_got l))
   | (ok, evs) :: t =>
       let written := if ok then Z.of_nat (length data) else (Z.of_nat (length data) - 1)%Z in
       (snd (tty_transmit written data),
        mkSLine (l_port l) (l_rxbaud l)
-              (mkScript (pending s ++ (if heard l then evs else [])) t (idle_dt s)))
+              (mkScript (pending s ++ (if heard l then evs else [])) t (idle_dt s))
+              (if ok then l_out l ++ [data] else l_out l) (l_got l))
   end.
 
 (* _flush_input(): reset_input_buffer() *)
-Definition l_flush (l : sline) : sline := mkSLine (l_port l) (l_rxbaud l) (s_flush (l_script l)).
+Definition l_flush (l : sline) : sline := mkSLine (l_port l) (l_rxbaud l) (s_flush (l_script l)) (l_out l) (l_got l).
 
 (* _recover(): Backends.tty_recover on the port (AssertionError if the port is closed: modelled as no change) *)
 Definition l_recover (l : sline) : sline :=
   match tty_recover (l_port l) with
-  | Ok p' => mkSLine p' (l_rxbaud l) (l_script l)
+  | Ok p' => mkSLine p' (l_rxbaud l) (l_script l) (l_out l) (l_got l)
   | Raise _ => l
   end.
 
@@ -52,16 +57,31 @@ Definition line_ok (l : sline) (s : script) : Prop :=
 
 (* a recovery that comes back at another bit rate (what the property forbids), for the refutation below *)
 Definition l_recover_to (b : Z) (l : sline) : sline :=
-  mkSLine (mkPort (p_open (l_port l)) b (p_baud_log (l_port l) ++ [9600%Z; b])) (l_rxbaud l) (l_script l).
+  mkSLine (mkPort (p_open (l_port l)) b (p_baud_log (l_port l) ++ [9600%Z; b])) (l_rxbaud l) (l_script l) (l_out l) (l_got l).
 Definition bad_line_backend (b : Z) : backend sline := mkBackend sline l_receive l_transmit l_flush (l_recover_to b).
 
-(* a sequence of requests on one server object over the serial line; reports the port's bit rate after each *)
+(* a flush that also resets the OUTPUT buffer (what the property forbids: transmitted bytes must reach the receiver) *)
+Definition l_flush_both (l : sline) : sline := mkSLine (l_port l) (l_rxbaud l) (s_flush (l_script l)) [] (l_got l).
+Definition flush_both_backend : backend sline := mkBackend sline l_receive l_transmit l_flush_both l_recover.
+
+(* the frames of the successful transmissions recorded in a trace, oldest first *)
+Fixpoint tx_ok_frames (tr : list event) : list bytes :=
+  match tr with
+  | [] => []
+  | Tx d true :: t => d :: tx_ok_frames t
+  | _ :: t => tx_ok_frames t
+  end.
+(* what the receiver has got or will get: frames that left the port, then the output buffer *)
+Definition l_sent (l : sline) : list bytes := l_got l ++ l_out l.
+
+(* a sequence of requests on one server object over the serial line; reports the port's bit rate after each and how many frames it handed to the line *)
 Fixpoint run_requests_line (sk : list N) (fuel : nat) (rs : list (rop * request)) (w : world sline)
-  : list (outcome * list event * N * bool * Z) :=
+  : list (outcome * list event * N * bool * Z * nat) :=
   match rs with
   | [] => []
   | (o, rq) :: t =>
       let w0 := mkWorld (wsrv w) (wenv w) (wnow w) [] false in
       let (out, w') := do_request line_backend sk fuel o rq w0 in
-      (out, wtrace w', wnow w' - wnow w, wtie w', p_baud (l_port (wenv w'))) :: run_requests_line sk fuel t w'
+      (out, wtrace w', wnow w' - wnow w, wtie w', p_baud (l_port (wenv w')),
+       (length (l_sent (wenv w')) - length (l_sent (wenv w)))%nat) :: run_requests_line sk fuel t w'
   end.
